@@ -2,6 +2,11 @@
 
 Fail-closed: any `.discard`/`.remove`/`.get_id`/`.clear` call on an `*_id` manager attribute, and any store to an
 `.id` attribute, must be classified; anything else raises TranslateError.
+
+Round 2: census of the map argument at every constructor call and nested `.copy()` call inside the `copy` methods of
+the ID-bearing classes and inside `instancing.collapse_one` (does the copy allocate in the destination map?), and the
+shape of the nav-node ('nodeid') handling (re-allocation in add_ent/add_ents, release in remove_ent, release by the
+destructor).
 """
 from __future__ import annotations
 
@@ -35,12 +40,14 @@ def translate() -> tuple[str, dict]:
     id_stores: list[tuple[str, int, bool]] = []
     side: dict = {'files': {}}
     fix_pos = None
+    fix_defer = None
     fix_start = None
     lower_guard = None
     class_kind: list[tuple[str, int, bool]] = []
     EXPECT = {'Side': {'KFace'}, 'Solid': {'KSolid'}, 'Entity': {'KEnt', 'KNode'}, 'VisGroup': {'KVis'}, 'EntityGroup': {'KGroup'}}
+    trees = {}
     for rel in ('vmf.py', 'instancing.py'):
-        tree = ast.parse(src_text(rel))
+        tree = trees[rel] = ast.parse(src_text(rel))
         for cls, fn, node in _enclosing(tree):
             # calls on managers
             if isinstance(node, ast.Call) and isinstance(node.func, ast.Attribute) \
@@ -86,12 +93,15 @@ def translate() -> tuple[str, dict]:
                     for f in n.body:
                         if isinstance(f, ast.FunctionDef) and f.name == '__init__':
                             fix_pos = _fixup_init_test(f)
+                            fix_defer = _fixup_init_defers(f)
                         if isinstance(f, ast.FunctionDef) and f.name == '__setitem__':
                             fix_start = _fixup_set_start(f)
     if fix_pos is None or fix_start is None:
         raise TranslateError('EntityFixup.__init__/__setitem__ not recognised')
     if 'idman_digest' not in side:
         raise TranslateError('class IDMan not found')
+    copy_rows = _copy_census(trees['vmf.py'], trees['instancing.py'])
+    node_realloc, node_in_del = _node_shape(trees['vmf.py'], acquires, releases)
     lines = [
         '(* GENERATED by translate/c08_sites.py from /repo/src/srctools/vmf.py, instancing.py. Do not edit. *)',
         'From Coq Require Import ZArith List String.', 'Import ListNotations.', 'Open Scope string_scope.',
@@ -113,11 +123,20 @@ def translate() -> tuple[str, dict]:
         '].',
         f'Definition fixup_init_requires_positive : bool := {"true" if fix_pos else "false"}.',
         f'Definition fixup_set_start : Z := {fix_start}%Z.',
+        f'Definition fixup_init_defers_reinsertion : bool := {"true" if fix_defer else "false"}.',
+        '(* the map argument of every constructor / nested copy() call inside copy() methods and collapse_one:',
+        '   does the new object take its ID from the destination map? *)',
+        'Definition copy_sites : list (kind * string * bool) := [',
+        ';\n'.join(f'  ({k}, "{d}", {"true" if ok else "false"})' for k, d, ok, _ in copy_rows),
+        '].',
+        f'Definition node_realloc_on_add : bool := {"true" if node_realloc else "false"}.',
+        f'Definition node_release_in_del : bool := {"true" if node_in_del else "false"}.',
         '',
     ]
     side.update(releases=[list(r) for r in releases], acquires=[list(a) for a in acquires],
-                id_stores=[list(s) for s in id_stores], fixup_init_requires_positive=fix_pos, fixup_set_start=fix_start,
-                idman_lower_guard=lower_guard, class_kind=[list(c) for c in class_kind])
+                id_stores=[list(s) for s in id_stores], fixup_init_requires_positive=fix_pos, fixup_set_start=fix_start, fixup_init_defers=fix_defer,
+                idman_lower_guard=lower_guard, class_kind=[list(c) for c in class_kind],
+                copy_sites=[list(c) for c in copy_rows], node_realloc_on_add=node_realloc, node_release_in_del=node_in_del)
     return '\n'.join(lines), side
 
 
@@ -157,6 +176,33 @@ def _fixup_init_test(f: ast.FunctionDef) -> bool:
     raise TranslateError('EntityFixup.__init__: no acceptance test found')
 
 
+def _fixup_init_defers(f: ast.FunctionDef) -> bool:
+    """What happens to a value whose index is refused: collected (`<list>.append(fix)`) and re-inserted by a later
+    loop (True), or re-inserted at once with `self[fix.var] = fix.value` inside the first loop (False)."""
+    for node in ast.walk(f):
+        if isinstance(node, ast.For) and any(isinstance(n, ast.If) for n in node.body):
+            test = next(n for n in node.body if isinstance(n, ast.If))
+            if len(test.orelse) != 1:
+                raise TranslateError(f'EntityFixup.__init__: unrecognised handling of refused indexes (line {test.lineno})')
+            st = test.orelse[0]
+            src = ast.unparse(st)
+            if isinstance(st, ast.Expr) and isinstance(st.value, ast.Call) and isinstance(st.value.func, ast.Attribute) \
+                    and st.value.func.attr == 'append' and isinstance(st.value.func.value, ast.Name) \
+                    and ast.unparse(st.value.args[0]) == node.target.id:
+                lst = st.value.func.value.id
+                # a later loop over that list must re-insert through __setitem__
+                later = [n for n in f.body if isinstance(n, ast.For) and n.lineno > node.lineno
+                         and isinstance(n.iter, ast.Name) and n.iter.id == lst]
+                if len(later) != 1 or not any(isinstance(x, ast.Assign) and isinstance(x.targets[0], ast.Subscript)
+                                              and ast.unparse(x.targets[0].value) == 'self' for x in later[0].body):
+                    raise TranslateError(f'EntityFixup.__init__: refused values collected in `{lst}` are not re-inserted by a later loop')
+                return True
+            if isinstance(st, ast.Assign) and isinstance(st.targets[0], ast.Subscript) and ast.unparse(st.targets[0].value) == 'self':
+                return False
+            raise TranslateError(f'EntityFixup.__init__: unrecognised handling of refused indexes `{src}` (line {st.lineno})')
+    raise TranslateError('EntityFixup.__init__: first pass over the fixup list not found')
+
+
 def _fixup_set_start(f: ast.FunctionDef) -> int:
     """Recognise `ind = K` followed by `while ind in indexes: ind += 1`."""
     start = None
@@ -171,6 +217,174 @@ def _fixup_set_start(f: ast.FunctionDef) -> int:
     if start is None or not loop or not isinstance(start, int):
         raise TranslateError('EntityFixup.__setitem__: index search not recognised')
     return start
+
+
+# ------------------------------------------------------------------------------------------------ copy census
+ID_CLASSES = {'Entity': 'KEnt', 'Solid': 'KSolid', 'Side': 'KFace', 'VisGroup': 'KVis', 'EntityGroup': 'KGroup'}
+# A nested copy of an object of the class also copies what it contains.
+AFFECTS = {'Entity': ['KEnt', 'KSolid', 'KFace'], 'Solid': ['KSolid', 'KFace'], 'Side': ['KFace'],
+           'VisGroup': ['KVis'], 'EntityGroup': ['KGroup']}
+MAP_PARAMS = ('vmf_file', 'vmf', 'map')
+
+
+def _id_containers(tree: ast.Module) -> dict[str, dict[str, str]]:
+    """class -> {attribute: ID class of the elements}, from the class-level annotations `attr: list[...Cls...]`."""
+    out: dict[str, dict[str, str]] = {}
+    for n in tree.body:
+        if not isinstance(n, ast.ClassDef):
+            continue
+        for st in n.body:
+            if isinstance(st, ast.AnnAssign) and isinstance(st.target, ast.Name):
+                ann = ast.unparse(st.annotation)
+                if not (ann.startswith('list[') or ann.startswith('List[') or ann.startswith('dict[')):
+                    continue
+                for cls in ID_CLASSES:
+                    if ann in (f'list[{cls}]', f"list['{cls}']", f'List[{cls}]', f"List['{cls}']",
+                               f"dict[int, '{cls}']", f'dict[int, {cls}]'):
+                        out.setdefault(n.name, {})[st.target.id] = cls
+    return out
+
+
+def _copy_signatures(tree: ast.Module) -> dict[str, tuple[ast.FunctionDef, str, int]]:
+    """ID class -> (copy FunctionDef, name of its map parameter, positional index of that parameter)."""
+    out = {}
+    for n in tree.body:
+        if isinstance(n, ast.ClassDef) and n.name in ID_CLASSES:
+            for f in n.body:
+                if isinstance(f, ast.FunctionDef) and f.name == 'copy':
+                    params = [a.arg for a in f.args.args][1:]
+                    mp = [p for p in params if p in MAP_PARAMS]
+                    if len(mp) != 1:
+                        raise TranslateError(f'{n.name}.copy: cannot identify the map parameter among {params}')
+                    out[n.name] = (f, mp[0], params.index(mp[0]))
+    missing = set(ID_CLASSES) - set(out)
+    if missing:
+        raise TranslateError(f'no copy() method found for {sorted(missing)}')
+    return out
+
+
+def _aliases(fn: ast.FunctionDef) -> dict[str, ast.AST]:
+    """Local names assigned exactly once by a plain `name = expr` statement."""
+    seen: dict[str, list[ast.AST]] = {}
+    for n in ast.walk(fn):
+        if isinstance(n, ast.Assign) and len(n.targets) == 1 and isinstance(n.targets[0], ast.Name):
+            seen.setdefault(n.targets[0].id, []).append(n.value)
+    return {k: v[0] for k, v in seen.items() if len(v) == 1}
+
+
+def _is_forward(expr: ast.AST | None, param: str, aliases: dict[str, ast.AST] | None = None) -> bool:
+    """Is `expr` the destination map: `param`, or `param or self.<map attr>` (possibly through one local name)?"""
+    if expr is None:
+        return False
+    if aliases and isinstance(expr, ast.Name) and expr.id != param and expr.id in aliases:
+        return _is_forward(aliases[expr.id], param)
+    if isinstance(expr, ast.Name) and expr.id == param:
+        return True
+    if isinstance(expr, ast.BoolOp) and isinstance(expr.op, ast.Or) and len(expr.values) == 2:
+        a, b = expr.values
+        return (isinstance(a, ast.Name) and a.id == param and isinstance(b, ast.Attribute)
+                and isinstance(b.value, ast.Name) and b.value.id == 'self' and b.attr in ('map', 'vmf'))
+    return False
+
+
+def _map_arg(call: ast.Call, index: int, names: tuple[str, ...]) -> ast.AST | None:
+    for kw in call.keywords:
+        if kw.arg in names:
+            return kw.value
+        if kw.arg is None:
+            raise TranslateError(f'line {call.lineno}: **kwargs in a copy call')
+    if any(isinstance(a, ast.Starred) for a in call.args):
+        raise TranslateError(f'line {call.lineno}: *args in a copy call')
+    return call.args[index] if len(call.args) > index else None
+
+
+def _loop_bindings(fn: ast.FunctionDef) -> dict[str, ast.AST]:
+    """Name -> iterable expression, for every `for name in it` statement and comprehension in the function."""
+    out: dict[str, ast.AST] = {}
+    for n in ast.walk(fn):
+        if isinstance(n, ast.For) and isinstance(n.target, ast.Name):
+            out[n.target.id] = n.iter
+        elif isinstance(n, ast.comprehension) and isinstance(n.target, ast.Name):
+            out[n.target.id] = n.iter
+    return out
+
+
+def _copy_census(vmf_tree: ast.Module, inst_tree: ast.Module) -> list[tuple[str, str, bool, int]]:
+    """(kind, description, allocates in the destination map?, line) for every ID-relevant call in copy()/collapse_one."""
+    cont = _id_containers(vmf_tree)
+    sigs = _copy_signatures(vmf_tree)
+    rows: list[tuple[str, str, bool, int]] = []
+    for cls, (fn, param, _) in sigs.items():
+        n_ctor = 0
+        binds = _loop_bindings(fn)
+        al = _aliases(fn)
+        al.pop(param, None)
+        # `if vmf is None: vmf = self.vmf` makes the bare parameter the destination map as well.
+        for call in (n for n in ast.walk(fn) if isinstance(n, ast.Call)):
+            f = call.func
+            if isinstance(f, ast.Name) and f.id in ID_CLASSES:
+                ok = _is_forward(_map_arg(call, 0, MAP_PARAMS), param, al)
+                rows.append((ID_CLASSES[f.id], f'{cls}.copy: {f.id}(...)', ok, call.lineno))
+                n_ctor += f.id == cls
+            elif isinstance(f, ast.Attribute) and f.attr == 'copy' and isinstance(f.value, ast.Name) and f.value.id in binds:
+                it = binds[f.value.id]
+                if isinstance(it, ast.Attribute) and isinstance(it.value, ast.Name) and it.value.id == 'self':
+                    elem = cont.get(cls, {}).get(it.attr)
+                    if elem is None:
+                        continue        # a container of objects without IDs (planes, outputs, ...)
+                    callee_param, callee_idx = sigs[elem][1], sigs[elem][2]
+                    ok = _is_forward(_map_arg(call, callee_idx, (callee_param,)), param, al)
+                    # only the bare parameter may be passed down (the callee applies its own default)
+                    for k in AFFECTS[elem]:
+                        rows.append((k, f'{cls}.copy: {f.value.id}.copy(...) over self.{it.attr}', ok, call.lineno))
+        if n_ctor != 1:
+            raise TranslateError(f'{cls}.copy: expected exactly one {cls}(...) constructor call, found {n_ctor}')
+    # instancing.collapse_one: copies of the instance map's objects must be made in the destination map
+    fns = [n for n in inst_tree.body if isinstance(n, ast.FunctionDef) and n.name == 'collapse_one'
+           and not any(ast.unparse(d).endswith('overload') for d in n.decorator_list)]
+    if len(fns) != 1:
+        raise TranslateError('instancing.collapse_one not found (or more than one implementation)')
+    fn = fns[0]
+    dest = fn.args.args[0].arg
+    binds = _loop_bindings(fn)
+    n_coll = 0
+    for call in (n for n in ast.walk(fn) if isinstance(n, ast.Call)):
+        f = call.func
+        if isinstance(f, ast.Name) and f.id in ID_CLASSES:
+            ok = _is_forward(_map_arg(call, 0, MAP_PARAMS), dest)
+            rows.append((ID_CLASSES[f.id], f'collapse_one: {f.id}(...)', ok, call.lineno))
+        if not (isinstance(f, ast.Attribute) and f.attr == 'copy' and isinstance(f.value, ast.Name) and f.value.id in binds):
+            continue
+        it = binds[f.value.id]
+        # iterables of the form <anything>.vmf.<attr> / <anything>.<attr> with attr a VMF container of ID objects
+        if isinstance(it, ast.Attribute) and it.attr in cont.get('VMF', {}):
+            elem = cont['VMF'][it.attr]
+            callee_param, callee_idx = sigs[elem][1], sigs[elem][2]
+            ok = _is_forward(_map_arg(call, callee_idx, (callee_param,)), dest)
+            for k in AFFECTS[elem]:
+                rows.append((k, f'collapse_one: {f.value.id}.copy(...) over {ast.unparse(it)}', ok, call.lineno))
+            n_coll += 1
+    if n_coll < 2:
+        raise TranslateError(f'instancing.collapse_one: expected copies of brushes and entities, found {n_coll} copy sites')
+    return rows
+
+
+def _node_shape(vmf_tree: ast.Module, acquires, releases) -> tuple[bool, bool]:
+    """(add_ent/add_ents allocate a node ID, the destructor releases the node ID)."""
+    realloc = any(k == 'KNode' and f in ('VMF.add_ent', 'VMF.add_ents') for k, f, _ in acquires)
+    in_del = any(k == 'KNode' and s == 'SDel' for k, s, _, _ in releases)
+    for n in vmf_tree.body:
+        if isinstance(n, ast.ClassDef) and n.name == 'Entity':
+            for f in n.body:
+                if isinstance(f, ast.FunctionDef) and f.name == '__del__':
+                    for st in ast.walk(f):
+                        if isinstance(st, ast.Delete):
+                            for t in st.targets:
+                                if (isinstance(t, ast.Subscript) and isinstance(t.value, ast.Name) and t.value.id == 'self'
+                                        and isinstance(t.slice, ast.Constant) and isinstance(t.slice.value, str)
+                                        and t.slice.value.casefold() == 'nodeid'):
+                                    in_del = True
+    return realloc, in_del
 
 
 GEN = {'IdSites_gen': translate}
